@@ -1,24 +1,18 @@
 import Cutplace.Proofs.CsvLemmas
+import Cutplace.Proofs.CsvRoundTrip
 /-
 C12  Delimited data round-trips through write and read for every accepted format.
 
-Full statement (target):
+Full statement, proved (`C12_roundtrip`):
   GoodCfg cfg → (∀ r ∈ t, r ≠ []) → ∃ s, renderTable cfg t = some s ∧ parse cfg s = some t
-for tables of any size over all characters.  Proved so far: every format the CID loader accepts gives a
-`GoodCfg` (`C12_goodcfg_of_accepted`), and the heart of the reader argument for the default
-(doublequote) dialect — a quoted cell with arbitrary content, embedded delimiters, quotes, CR and LF
-included, is read back exactly (`C12_quoted_cell_partial`).  The lifting to rows and tables and the
-escape-character dialect are validated by the exhaustive correspondence only.
+for tables of any size over all characters, for both dialect families cutplace can configure (quote
+doubling when the escape character equals the quote character, escape-character otherwise), with and
+without quote-all.  `C12_goodcfg_of_accepted` shows that every format the CID loader accepts gives a
+`GoodCfg`; `C12_accepted_roundtrip` chains the two.  The model of the csv reader and writer
+(`Model/Csv.lean`) is tied to CPython's `_csv` by the exhaustive correspondence in the harness.
 -/
 namespace Cutplace.Props
 open Cutplace Cutplace.Csv
-
-/-- what a csv dialect needs for the round trip -/
-def GoodCfg (cfg : Cfg) : Prop :=
-  cfg.delim ≠ '\n' ∧ cfg.delim ≠ '\r' ∧ cfg.delim ≠ cfg.quote ∧ cfg.quote ≠ '\n' ∧ cfg.quote ≠ '\r' ∧
-  cfg.skipInitialSpace = false ∧
-  ((cfg.dq = true ∧ cfg.esc = none) ∨
-   (cfg.dq = false ∧ ∃ e, cfg.esc = some e ∧ e ≠ cfg.delim ∧ e ≠ cfg.quote ∧ e ≠ '\n' ∧ e ≠ '\r'))
 
 /-- Every delimited format that passes `DataFormat.validate` (with quote and escape characters from
 their documented sets, initial-space skipping off) yields a dialect fit for the round trip. -/
@@ -30,25 +24,40 @@ theorem C12_goodcfg_of_accepted (df : DataFormat) (hf : df.format = .delimited) 
   obtain ⟨⟨⟨⟨⟨⟨_, _⟩, h3⟩, _⟩, h5⟩, h6, h7⟩, _⟩ := hv
   have hqn : df.quote ≠ '\n' ∧ df.quote ≠ '\r' := by
     constructor <;> (intro h; rw [h] at hq; exact absurd hq (by decide))
-  unfold ofDataFormat GoodCfg
+  unfold ofDataFormat
   by_cases heq : df.escape = df.quote
   · simp only [heq, beq_self_eq_true, if_true]
-    exact ⟨h6, h7, h5, hqn.1, hqn.2, hs, Or.inl ⟨trivial, trivial⟩⟩
+    exact ⟨h6, h7, h5, hqn.1, hqn.2, hs, Or.inl ⟨rfl, rfl⟩⟩
   · have : (df.escape == df.quote) = false := by simpa using heq
     simp only [this, Bool.false_eq_true, if_false]
-    refine ⟨h6, h7, h5, hqn.1, hqn.2, hs, Or.inr ⟨trivial, df.escape, rfl, h3, heq, ?_, ?_⟩⟩
+    refine ⟨h6, h7, h5, hqn.1, hqn.2, hs, Or.inr ⟨rfl, df.escape, rfl, h3, heq, ?_, ?_⟩⟩
     · rcases he with h | h <;> rw [h] <;> decide
     · rcases he with h | h <;> rw [h] <;> decide
 
-/-- **Partial.** Doublequote dialect: a quoted cell — opening quote, the cell with every quote
+/-- **Round trip.** For every good dialect and every table whose rows have at least one cell, cells
+of any content (delimiters, quotes, escape characters, CR, LF, CRLF, leading/trailing blanks, empty):
+the writer accepts the table and the reader returns exactly that table from the written text. -/
+theorem C12_roundtrip (cfg : Cfg) (hg : GoodCfg cfg) (t : List (List (List Char))) (ht : ∀ r ∈ t, r ≠ []) :
+    ∃ text, renderTable cfg t = some text ∧ parse cfg text = some t :=
+  roundtrip cfg hg t ht
+
+/-- The same for every delimited data format `DataFormat.validate` accepts. -/
+theorem C12_accepted_roundtrip (df : DataFormat) (hf : df.format = .delimited) (hv : df.validate = true)
+    (hq : validQuoteCharacters.contains df.quote = true) (he : df.escape = '"' ∨ df.escape = '\\')
+    (hs : df.skipInitialSpace = false) (t : List (List (List Char))) (ht : ∀ r ∈ t, r ≠ []) :
+    ∃ text, renderTable (ofDataFormat df) t = some text ∧ parse (ofDataFormat df) text = some t :=
+  roundtrip _ (C12_goodcfg_of_accepted df hf hv hq he hs) t ht
+
+/-- Per-cell core of the argument (doublequote dialect): a quoted cell — opening quote, the cell with every quote
 doubled, closing quote — is read as exactly that cell, whatever it contains (delimiters, quotes, CR,
 LF, CRLF) and whatever the state of the line splitter; no record is emitted on the way. -/
-theorem C12_quoted_cell_partial (cfg : Cfg) (hg : GoodCfg cfg) (hdq : cfg.dq = true) (hesc : cfg.esc = none)
+theorem C12_quoted_cell (cfg : Cfg) (hg : GoodCfg cfg) (hdq : cfg.dq = true) (hesc : cfg.esc = none)
     (f : List Char) (fields : List (List Char)) (out : List (List (List Char))) :
     ∃ l', feedAll cfg { l := .mid, p := { st := .startField, field := [], fields := fields }, out := out }
         (cfg.quote :: bodyDq cfg.quote f ++ [cfg.quote])
       = some { l := l', p := { st := .quoteInQuoted, field := f.reverse, fields := fields }, out := out } := by
-  obtain ⟨_, _, _, hq1, hq2, _, _⟩ := hg
+  have hq1 := hg.quote_nl
+  have hq2 := hg.quote_cr
   obtain ⟨l1, h1⟩ := quoted_body cfg hdq hesc hq1 hq2 f .mid [] fields out
   simp only [List.append_nil] at h1
   have hopen : feed cfg { l := .mid, p := { st := .startField, field := [], fields := fields }, out := out } cfg.quote
@@ -62,5 +71,16 @@ example :
     let cfg : Cfg := { delim := ',', quote := '"', esc := none, dq := true, quoteAll := false }
     let t := [["a,b".toList, "say \"hi\"".toList], ["line1\r\nline2".toList, []], [[]]]
     (renderTable cfg t).bind (parse cfg) = some t := by decide
+
+/-- non-vacuity: the escape-character dialect is a `GoodCfg` too -/
+example : GoodCfg { delim := ';', quote := '\'', esc := some '\\', dq := false, quoteAll := true } :=
+  ⟨by decide, by decide, by decide, by decide, by decide, rfl,
+   Or.inr ⟨rfl, '\\', rfl, by decide, by decide, by decide, by decide⟩⟩
+
+/-- the hypotheses are needed: with the item delimiter equal to the escape character the writer's
+output is read back differently (this is what `DataFormat.validate` refuses since the C12 repair) -/
+example :
+    let cfg : Cfg := { delim := '\\', quote := '"', esc := some '\\', dq := false, quoteAll := false }
+    (renderTable cfg [[['a'], ['b']]]).bind (parse cfg) ≠ some [[['a'], ['b']]] := by decide
 
 end Cutplace.Props
